@@ -182,7 +182,7 @@ def invert_jacobian(d, inverted_model_function, jacobian_function, derivative_fu
         derivative of the non-inverted model w.r.t. the independent variable
     """
     F = inverted_model_function(d)
-    jacobian = jacobian_function(F)
+    jacobian = np.asarray(jacobian_function(F))  # some model Jacobians are returned as lists
     derivative = derivative_function(F)
     inverse = 1.0 / derivative
     inverted_dyda = np.tile(inverse, (jacobian.shape[0], 1))
